@@ -21,6 +21,10 @@ type C05Scenario struct {
 	Cuts    []int `json:"cuts,omitempty"`
 	ReadBuf int   `json:"read_buf"`
 	Dribble bool  `json:"dribble,omitempty"` // scheduler delivers tiny pieces
+	// Victim > 0: before the exchange another connection of the process (other
+	// session, other user) has a write of that many bytes fail on a dead peer;
+	// nothing of it may show on this connection
+	Victim int `json:"victim,omitempty"`
 }
 
 func c05Msg(key uint64, w, j, n int) []byte {
@@ -103,6 +107,9 @@ func genC05Random(g *Gen) any {
 		sc.Msgs = append(sc.Msgs, l)
 	}
 	sc.ReadBuf = g.Pick(20480, 20480, 16640, 4096, 301)
+	if sc.PatKey%4 == 0 {
+		sc.Victim = int(sc.PatKey>>8)%3000 + 1
+	}
 	switch g.Int(0, 2) {
 	case 0: // random multi-cuts, scripted
 		total := 0
@@ -146,6 +153,21 @@ func runC05(c *Ctx, scAny any) {
 	pipe := a.Link().Dir[0]
 	wc := common.NewTLSConn(a)
 	rc := common.NewTLSConn(b)
+	if sc.Victim > 0 {
+		va, vb := c.Net.Pipe("victim")
+		vb.Close()
+		vc := common.NewTLSConn(va)
+		junk := make([]byte, sc.Victim)
+		for i := range junk {
+			junk[i] = 0x5C
+		}
+		if _, err := vc.Write(junk); err == nil {
+			c.Fail("setup", "victim", "a write to a connection whose peer is gone succeeded")
+			return
+		}
+		vc.Close()
+		c.Probe("victim_write_failed")
+	}
 	total := 0
 	nmsgs := 0
 	for _, l := range sc.Msgs {
